@@ -23,11 +23,14 @@ fn corpus(parser: &str) -> Vec<String> {
             "@prefix ex: <http://ex/> .\n@base <http://base/a/b> .\nex:s ex:p ex:o , <rel> ; a ex:C .\n",
             "PREFIX : <http://ex/ns#>\nBASE <http://b/>\n:a\\~b :p%41 ( 1 2.5 -3e2 true \"x\"@en ( ) ) ; :q [ :r [ ] ; :s \"\"\"long \" \"\" \n text\"\"\"^^:dt ] .\n",
             "<http://[2001:db8::1]/> <http://ex/p> '''a'b''' , 'c\\'d' , \"\\u00e9\" .\n_:b.1 <http://ex/p> _:b-2 .\n[] <http://ex/p> <#frag> , <?q> , <//host/x> , <../up> .\n",
+            "<http://[1:2:3:4:5::6:7]/> <http://[1:2:3:4:5:6::7]/p> <http://[::1.2.3.4]/> , <http://[1:2:3:4:5::1.2.3.4]/> , <http://[1::]/> , <http://[v1.a]/> , \"x\"@en-x-a , \"y\"@de-u-co-phonebk , \"z\"@a-1 .\n",
             "@prefix e\u{e9}: <http://ex/\u{e9}#> .\ne\u{e9}:x\u{b7}y e\u{e9}:p.q e\u{e9}:%C3%A9 .\n<< <http://ex/s> <http://ex/p> <http://ex/o> >> <http://ex/q> << _:b <http://ex/p> \"l\" >> .\n",
         ],
         "xml" => vec![
             "<?xml version=\"1.0\"?>\n<rdf:RDF xmlns:rdf=\"http://www.w3.org/1999/02/22-rdf-syntax-ns#\" xmlns:ex=\"http://ex/\" xml:base=\"http://base/a/b\">\n <rdf:Description rdf:about=\"s\" ex:attr=\"v\">\n  <ex:p rdf:resource=\"http://ex/o\"/>\n  <ex:q xml:lang=\"fr-BE\">chat</ex:q>\n  <ex:r rdf:datatype=\"http://www.w3.org/2001/XMLSchema#int\">5</ex:r>\n  <ex:s rdf:nodeID=\"b1\"/>\n  <ex:t rdf:parseType=\"Collection\"><rdf:Description rdf:about=\"a\"/><ex:C/></ex:t>\n  <ex:u rdf:parseType=\"Literal\"><b>x</b></ex:u>\n  <ex:v rdf:parseType=\"Resource\"><ex:w>1</ex:w></ex:v>\n  <rdf:li>i</rdf:li>\n </rdf:Description>\n <ex:T rdf:ID=\"id1\"><ex:p rdf:ID=\"st1\">r</ex:p></ex:T>\n</rdf:RDF>\n",
             "<rdf:RDF xmlns:rdf=\"http://www.w3.org/1999/02/22-rdf-syntax-ns#\" xmlns=\"http://[::1]/ns#\"><rdf:Description rdf:about=\"http://\u{e9}x/%41?q#f\"><p>\u{1F600}&amp;&lt;&#65;</p></rdf:Description></rdf:RDF>",
+            // blank node identifiers that are XML names but unusual blank node labels (trailing / doubled dots, middle dot, leading underscore), IPv6 hosts with every count of groups
+            "<rdf:RDF xmlns:rdf=\"http://www.w3.org/1999/02/22-rdf-syntax-ns#\" xmlns:e=\"http://ex/\"><rdf:Description rdf:nodeID=\"a.\"><e:p rdf:nodeID=\"a..b\"/><e:q rdf:nodeID=\"_x\"/><e:r rdf:nodeID=\"a\u{b7}-\"/><e:s rdf:resource=\"http://[1:2:3:4:5::6:7]/\"/><e:t xml:lang=\"en-x-a\">v</e:t></rdf:Description></rdf:RDF>",
         ],
         _ => vec![
             "{\"@context\":{\"ex\":\"http://ex/\",\"@base\":\"http://base/a/b\",\"@language\":\"fr-BE\"},\"@id\":\"s\",\"ex:p\":{\"@id\":\"ex:o\"},\"ex:q\":\"chat\",\"ex:r\":{\"@value\":\"5\",\"@type\":\"http://www.w3.org/2001/XMLSchema#int\"},\"ex:l\":{\"@list\":[1,2.5,true,{\"@list\":[]}]},\"@type\":\"ex:C\",\"ex:g\":{\"@graph\":[{\"@id\":\"_:b1\",\"ex:p\":{\"@id\":\"_:b-2.x\"}}]}}",
